@@ -156,8 +156,10 @@ mod imp {
         let mut q = w.to_string();
         if rng.chance(1, 3) {
           let w2 = *rng.pick(&WORDS);
-          text_words.push(w2);
-          q = format!("{w} {w2}");
+          if w2 != w {
+            text_words.push(w2);
+            q = format!("{w} {w2}");
+          }
         }
         req["query"] = json!(q);
         let c = gen_clause(rng, fields, false);
@@ -280,13 +282,14 @@ mod imp {
     if i % 13 == 5 {
       // direct HnswIndex case
       let dim = 1 + rng.below(8);
-      let n = 1 + rng.below(70);
+      let m = *rng.pick(&[1usize, 2, 3, 4, 8, 16, 32]);
+      let n = if rng.chance(1, 2) { 1 + rng.below(m + 1) } else { 1 + rng.below(70) };
       let store: Vec<Value> = (0..n).map(|_| if rng.chance(1, 8) { Value::Null } else { json!(vector(rng, dim)) }).collect();
       let searches: Vec<Value> = (0..6)
         .map(|_| json!({"q": vector(rng, dim), "k": *rng.pick(&[1usize, 2, 3, 5, 10, 20, 80]), "ef": *rng.pick(&[1usize, 2, 4, 8, 16, 40, 100])}))
         .collect();
       return json!({"kind": "hnsw", "dim": dim, "metric": if rng.chance(1, 2) { "Cosine" } else { "L2" },
-        "m": *rng.pick(&[1usize, 2, 3, 4, 8, 16, 32]), "efc": *rng.pick(&[1usize, 2, 4, 8, 64]), "store": store, "searches": searches});
+        "m": m, "efc": *rng.pick(&[1usize, 2, 4, 8, 64]), "store": store, "searches": searches});
     }
     let fields = gen_fields(rng);
     if i % 29 == 7 {
@@ -346,6 +349,10 @@ mod imp {
 
   fn near(a: f64, b: f64) -> bool {
     if a == b {
+      return true;
+    }
+    // sums of `f32::MIN` penalties overflow to -inf in the implementation
+    if (a == f64::NEG_INFINITY && b <= -1e37) || (b == f64::NEG_INFINITY && a <= -1e37) {
       return true;
     }
     (a - b).abs() <= 1e-5 * 1f64.max(a.abs()).max(b.abs())
@@ -462,6 +469,36 @@ mod imp {
       Value::Array(a) => a.first().and_then(|x| x.as_str()).unwrap_or("").to_string(),
       _ => String::new(),
     }
+  }
+
+  /// one search through the real reader; scores are kept bit for bit (`serde_json` would turn
+  /// a non-finite `f32` into `null`)
+  fn search(reader: &searchlite_core::api::IndexReader, req: &Value) -> idx::Outcome {
+    let r = match idx::request(req) {
+      Ok(r) => r,
+      Err(e) => return idx::Outcome::Err(e),
+    };
+    match guarded(|| reader.search(&r)) {
+      Ok(Ok(res)) => {
+        let hits: Vec<Value> = res
+          .hits
+          .iter()
+          .map(|h| json!({"doc_id": h.doc_id, "score": h.score as f64, "score_bits": h.score.to_bits(),
+            "vector_score": h.vector_score.map(|x| x as f64), "vs_bits": h.vector_score.map(|x| x.to_bits()), "fields": h.fields}))
+          .collect();
+        idx::Outcome::Ok(json!({"hits": hits}))
+      }
+      Ok(Err(e)) => idx::Outcome::Err(e.to_string()),
+      Err(p) => idx::Outcome::Panic(p),
+    }
+  }
+
+  fn hscore(h: &Value) -> f64 {
+    f32::from_bits(h["score_bits"].as_u64().unwrap_or(0x7fc00000) as u32) as f64
+  }
+
+  fn hvs(h: &Value) -> Option<f64> {
+    h["vs_bits"].as_u64().map(|b| f32::from_bits(b as u32) as f64)
   }
 
   fn bits_f32(j: &Value) -> f64 {
@@ -624,6 +661,11 @@ mod imp {
     for c in commits {
       if let Some(docs) = c["add"].as_array() {
         idx::add_commit(idx, docs)?;
+        // the writer keeps the pending documents of a commit in a map keyed by id: a segment
+        // holds them in byte order of `_id`
+        let mut docs: Vec<Value> = docs.clone();
+        docs.sort_by(|a, b| a["_id"].as_str().unwrap_or("").cmp(b["_id"].as_str().unwrap_or("")));
+        let docs = &docs;
         let seg = segs.len();
         for d in docs {
           let id = d["_id"].as_str().unwrap_or("");
@@ -764,8 +806,8 @@ mod imp {
             if before.is_empty() || !rq["vector_only"].as_bool().unwrap_or(false) {
               continue;
             }
-            let after = match idx::search(&reader2, &rq["req"]) {
-              idx::Outcome::Ok(v) => v["hits"].as_array().cloned().unwrap_or_default().iter().map(|h| (ver_of_hit(h), h["score"].as_f64().unwrap_or(f64::NAN))).collect::<Vec<_>>(),
+            let after = match search(&reader2, &rq["req"]) {
+              idx::Outcome::Ok(v) => v["hits"].as_array().cloned().unwrap_or_default().iter().map(|h| (ver_of_hit(h), hscore(h))).collect::<Vec<_>>(),
               o => {
                 s.fail("compact.search-error", "a vector request that succeeded before compaction fails after it", &json!({"case": case, "req": rq}), o.to_json());
                 continue;
@@ -846,19 +888,19 @@ mod imp {
       t["limit"] = json!(1000);
       t.as_object_mut().unwrap().remove("candidate_size");
       t.as_object_mut().unwrap().remove("vector_filter");
-      match idx::search(reader, &t) {
+      match search(reader, &t) {
         idx::Outcome::Ok(v) => {
           for h in v["hits"].as_array().cloned().unwrap_or_default() {
-            bm25.insert(ver_of_hit(&h), h["score"].as_f64().unwrap_or(0.0));
+            bm25.insert(ver_of_hit(&h), hscore(&h));
           }
         }
         _ => text_ok = false,
       }
     }
 
-    let out = idx::search(reader, req);
+    let out = search(reader, req);
     let imp_hits: Vec<Value> = out.ok().map(|v| v["hits"].as_array().cloned().unwrap_or_default()).unwrap_or_default();
-    let imp_list: Vec<(String, f64)> = imp_hits.iter().map(|h| (ver_of_hit(h), h["score"].as_f64().unwrap_or(f64::NAN))).collect();
+    let imp_list: Vec<(String, f64)> = imp_hits.iter().map(|h| (ver_of_hit(h), hscore(h))).collect();
 
     // ---------------------------------------------------------------- correspondence
     let filter = &req["filter"];
@@ -917,11 +959,10 @@ mod imp {
         let mut bit_exact = ok;
         if ok {
           for (i, h) in imp_hits.iter().enumerate() {
-            let isc = h["score"].as_f64().unwrap_or(f64::NAN);
-            let ivs = h["vector_score"].as_f64();
+            let isc = hscore(h);
+            let ivs = hvs(h);
             let (mver, msc, mvs, mbits, mvbits) = &mlist[i];
-            let ibits = (isc as f32).to_bits() as u64;
-            if ibits != *mbits || ivs.map(|x| (x as f32).to_bits() as u64) != *mvbits {
+            if h["score_bits"].as_u64() != Some(*mbits) || h["vs_bits"].as_u64() != *mvbits {
               bit_exact = false;
             }
             if !near(isc, *msc) || ivs.is_some() != mvs.is_some() || !ivs.zip(*mvs).map(|(a, b)| near(a, b)).unwrap_or(true) {
@@ -984,6 +1025,24 @@ mod imp {
           a * bm + (1.0 - a) * vec
         }
       };
+      // the text side only hands the best text hits of each segment to the blend (at least
+      // `limit` per segment): a document outside its segment's top-`limit` text hits may be
+      // blended with a text score of 0
+      let mut text_top: BTreeSet<&str> = BTreeSet::new();
+      let mut text_cut = false;
+      for sg in &built.segs {
+        let mut th: Vec<(f64, &str)> = sg.iter().filter_map(|v| bm25.get(&v.ver).map(|b| (*b, v.ver.as_str()))).collect();
+        th.sort_by(|a, b| b.0.partial_cmp(&a.0).unwrap_or(std::cmp::Ordering::Equal));
+        if th.len() > limit {
+          text_cut = true;
+        }
+        let floor = th.get(limit.saturating_sub(1)).map(|x| x.0).unwrap_or(f64::NEG_INFINITY);
+        for (b, ver) in th {
+          if b >= floor {
+            text_top.insert(ver);
+          }
+        }
+      }
       let n_ineligible = all.iter().filter(|v| clauses.iter().any(|c| v.vec(c["field"].as_str().unwrap_or("")).is_some() && !elig(v, c)) || clauses.iter().all(|c| v.vec(c["field"].as_str().unwrap_or("")).is_none())).count();
       let n_eligible = all.iter().filter(|v| clauses.iter().any(|c| elig(v, c))).count();
       let mut seen: BTreeSet<String> = BTreeSet::new();
@@ -991,8 +1050,8 @@ mod imp {
       let mut any_vs = false;
       for h in &imp_hits {
         let ver = ver_of_hit(h);
-        let sc = h["score"].as_f64().unwrap_or(f64::NAN);
-        let vs = h["vector_score"].as_f64();
+        let sc = hscore(h);
+        let vs = hvs(h);
         let obs = json!({"hit": {"ver": ver, "doc_id": h["doc_id"], "score": sc, "vector_score": vs}});
         if !seen.insert(ver.clone()) {
           s.fail("hits.duplicate", "the same document version is returned twice", &sub, obs.clone());
@@ -1021,6 +1080,7 @@ mod imp {
         }
         let el: Vec<&Value> = clauses.iter().filter(|c| elig(v, c)).collect();
         let bm = bm25.get(&ver).copied().unwrap_or(0.0);
+        let bm_opts: Vec<f64> = if bm != 0.0 && !text_top.contains(ver.as_str()) { vec![bm, 0.0] } else { vec![bm] };
         match vs {
           Some(vs) => {
             any_vs = true;
@@ -1039,7 +1099,7 @@ mod imp {
             // unless a clause's candidate list was cut) of exact similarity × boost
             let mut found = false;
             let n = el.len();
-            for mask in (1..(1u32 << n)).rev() {
+            for (mask, bm) in (1..(1u32 << n)).rev().flat_map(|m| bm_opts.iter().map(move |b| (m, *b))) {
               let sum: f64 = (0..n).filter(|i| mask >> i & 1 == 1).map(|i| clause_score(v, el[i])).sum();
               if !near(sum, vs) {
                 continue;
@@ -1057,6 +1117,9 @@ mod imp {
                 found = true;
                 if mask != (1u32 << n) - 1 {
                   s.count("finder.partial-clause-set");
+                }
+                if bm == 0.0 && bm_opts.len() > 1 {
+                  s.count("finder.text-score-dropped-outside-segment-top-limit");
                 }
                 break;
               }
@@ -1082,7 +1145,8 @@ mod imp {
               s.fail("hits.text-only-with-alpha-0", "alpha = 0 everywhere but a hit without vector part is returned", &sub, obs.clone());
             } else {
               let total: f64 = clauses.iter().map(|c| blend(bm, c, None)).sum::<f64>() / clauses.len().max(1) as f64;
-              if !near(total, sc) && el.is_empty() {
+              let alt = bm_opts.iter().any(|b| near(clauses.iter().map(|c| blend(*b, c, None)).sum::<f64>() / clauses.len().max(1) as f64, sc));
+              if !near(total, sc) && !alt && el.is_empty() {
                 s.fail("score.blend-missing", "score of a hit without vector differs from the documented blend with the missing-vector penalty", &sub, json!({"hit": obs["hit"], "bm25": bm, "expected_score": total}));
               }
             }
@@ -1097,7 +1161,9 @@ mod imp {
         let single = clauses.len() == 1;
         let min_k = clauses.iter().map(|c| knobs(c, limit).0).min().unwrap_or(limit);
         let cut_possible = clauses.iter().any(|c| all.iter().filter(|v| elig(v, c)).count() > knobs(c, limit).0);
-        if single || !cut_possible {
+        if !vector_only && text_cut {
+          s.count("exact.skipped-text-side-cut");
+        } else if single || !cut_possible {
           // expected final score of every potential hit with complete candidate information
           let mut exp: Vec<(f64, String)> = Vec::new();
           for v in &all {
